@@ -118,49 +118,164 @@ TIME_UNITS = {"time.Nanosecond": 1, "time.Microsecond": 1000, "time.Millisecond"
               "time.Second": SEC, "time.Minute": 60 * SEC, "time.Hour": 3600 * SEC}
 
 
-def _const_blocks(src):
-    return re.findall(r"^const\s*\((.*?)^\)", src, re.S | re.M)
+class _N:
+    """a Go constant: exact value + whether it is of integer kind (integer / integer = truncated quotient)"""
+
+    def __init__(self, v, isint):
+        self.v, self.isint = Fraction(v), isint
+
+    def __add__(self, o):
+        return _N(self.v + o.v, self.isint and o.isint)
+
+    def __sub__(self, o):
+        return _N(self.v - o.v, self.isint and o.isint)
+
+    def __mul__(self, o):
+        return _N(self.v * o.v, self.isint and o.isint)
+
+    def __truediv__(self, o):
+        if o.v == 0:
+            raise RuntimeError("C01 constants translator: division by zero")
+        if self.isint and o.isint:
+            q = abs(self.v.numerator) // abs(o.v.numerator)
+            return _N(q if (self.v >= 0) == (o.v >= 0) else -q, True)
+        return _N(self.v / o.v, False)
+
+    def __neg__(self):
+        return _N(-self.v, self.isint)
+
+    def __pos__(self):
+        return self
 
 
-def _eval_const(expr):
-    """Exact value of a Go constant expression made of numeric literals, time units,
-    + - * / and parentheses.  Fails loudly on anything else."""
-    e = expr
-    for name, v in TIME_UNITS.items():
-        e = e.replace(name, str(v))
-    if not re.fullmatch(r"[0-9eE.+\-*/() \t_]+", e) or "e" in e.lower():
-        raise RuntimeError("C01 constants translator: cannot evaluate %r" % expr)
-    e = e.replace("_", "")
-    e = re.sub(r"\d+\.\d*|\.\d+|\d+", lambda m: "Fraction(%r)" % m.group(0), e)
-    return eval(e, {"Fraction": Fraction, "__builtins__": {}})
+def _strip_go_comments(src):
+    """comments out, string / rune literals kept (a '//' inside a string is not a comment)"""
+    out, i, n = [], 0, len(src)
+    while i < n:
+        c = src[i]
+        if c == '"' or c == "'":
+            j = i + 1
+            while j < n and src[j] != c:
+                j += 2 if src[j] == "\\" else 1
+            out.append(src[i:j + 1])
+            i = j + 1
+        elif c == "`":
+            j = src.find("`", i + 1)
+            j = n if j < 0 else j
+            out.append(src[i:j + 1])
+            i = j + 1
+        elif src.startswith("//", i):
+            j = src.find("\n", i)
+            i = n if j < 0 else j
+        elif src.startswith("/*", i):
+            j = src.find("*/", i + 2)
+            out.append("\n" * src[i:(n if j < 0 else j)].count("\n"))
+            i = n if j < 0 else j + 2
+        else:
+            out.append(c)
+            i += 1
+    return "".join(out)
+
+
+def _const_decls(src):
+    """{name: (expression text, iota)} of the package-level const declarations of one file: blocks
+    (with iota and implicit repetition) and single-line declarations, wherever they stand"""
+    src = _strip_go_comments(src)
+    decls = {}
+    for m in re.finditer(r"^const\s+(\w+)(?:\s+[\w.]+)?\s*=\s*(.+)$", src, re.M):
+        decls[m.group(1)] = (m.group(2).strip(), 0)
+    for blk in re.findall(r"^const\s*\((.*?)^\)", src, re.S | re.M):
+        iota, prev = 0, None
+        for line in blk.split("\n"):
+            line = line.strip().rstrip(";")
+            if not line:
+                continue
+            m = re.fullmatch(r"(\w+)\s*(?:[\w.]+\s*)?=\s*(.+)", line)
+            if m:
+                prev = m.group(2).strip()
+                decls[m.group(1)] = (prev, iota)
+            elif re.fullmatch(r"\w+", line) and prev is not None:
+                decls[line] = (prev, iota)          # implicit repetition of the previous expression
+            else:
+                prev = None                         # a form this translator does not read (a, b = ...)
+            iota += 1
+    return decls
+
+
+_CONV_INT = ("int", "int8", "int16", "int32", "int64", "uint", "uint8", "uint16", "uint32", "uint64", "time.Duration")
+_CONV_FLOAT = ("float32", "float64")
+
+
+def _eval_const(name, decls, stack=()):
+    """Exact value of a package constant: numeric literals, time units, other constants of the package,
+    iota, + - * / ( ), numeric conversions.  Fails loudly on anything else."""
+    if name in stack:
+        raise RuntimeError("C01 constants translator: cyclic constant %s" % name)
+    if name not in decls:
+        raise RuntimeError("C01 constants translator: constant %s not found in the package" % name)
+    expr, iota = decls[name]
+
+    def tok(m):
+        t = m.group(0)
+        if re.fullmatch(r"0[xX][0-9a-fA-F_]+", t):
+            return "_N(%d, True)" % int(t.replace("_", ""), 16)
+        if re.fullmatch(r"[0-9][0-9_]*", t):
+            return "_N(%d, True)" % int(t.replace("_", ""))
+        if re.fullmatch(r"[0-9][0-9_]*\.[0-9_]*|\.[0-9][0-9_]*", t):
+            return "_N(Fraction(%r), False)" % t.replace("_", "")
+        if re.fullmatch(r"(?:[0-9][0-9_]*\.?[0-9_]*|\.[0-9][0-9_]*)[eE][+-]?[0-9]+", t):
+            return "_N(Fraction(%r), False)" % t.replace("_", "")
+        if t == "iota":
+            return "_N(%d, True)" % iota
+        if t in TIME_UNITS:
+            return "_N(%d, True)" % TIME_UNITS[t]
+        if t in _CONV_INT:
+            return "_toint"
+        if t in _CONV_FLOAT:
+            return "_tofloat"
+        if re.fullmatch(r"[A-Za-z_]\w*", t):
+            return "_ref(%r)" % t
+        raise RuntimeError("C01 constants translator: cannot evaluate %r in %s = %s" % (t, name, expr))
+
+    if not re.fullmatch(r"[\w.+\-*/() \t]+", expr):
+        raise RuntimeError("C01 constants translator: cannot evaluate %s = %r" % (name, expr))
+    py = re.sub(r"(?:[0-9][0-9_]*\.?[0-9_]*|\.[0-9][0-9_]*)[eE][+-]?[0-9]+|0[xX][0-9a-fA-F_]+|[0-9][0-9_]*\.[0-9_]*|\.[0-9][0-9_]*"
+                r"|[0-9][0-9_]*|[A-Za-z_][\w]*(?:\.[A-Za-z_]\w*)?", tok, expr)
+
+    def _toint(x):
+        if x.v.denominator != 1:
+            raise RuntimeError("C01 constants translator: %s: conversion of %s to an integer type" % (name, x.v))
+        return _N(x.v, True)
+
+    env = {"_N": _N, "Fraction": Fraction, "_toint": _toint, "_tofloat": lambda x: _N(x.v, False),
+           "_ref": lambda n: _eval_const(n, decls, stack + (name,)), "__builtins__": {}}
+    try:
+        return eval(py, env)
+    except RuntimeError:
+        raise
+    except Exception as e:
+        raise RuntimeError("C01 constants translator: cannot evaluate %s = %r (%s)" % (name, expr, e))
 
 
 def extract_constants(repo):
-    src = open(os.path.join(repo, "core/breaker/googlebreaker.go")).read()
+    """The breaker's constants, wherever in package core/breaker they are declared (any non-test file, block or
+    single declaration, in terms of each other or not): moving / reordering / re-expressing them is followed."""
+    d = os.path.join(repo, "core/breaker")
+    decls = {}
+    for fn in sorted(os.listdir(d)):
+        if fn.endswith(".go") and not fn.endswith("_test.go"):
+            decls.update(_const_decls(open(os.path.join(d, fn)).read()))
     vals = {}
-    for blk in _const_blocks(src):
-        for line in blk.split("\n"):
-            line = line.split("//")[0].strip()
-            m = re.fullmatch(r"(\w+)\s*(?:[\w.]+\s*)?=\s*(.+)", line)
-            if m:
-                vals[m.group(1)] = _eval_const(m.group(2))
-    need = ["window", "buckets", "forcePassDuration", "k", "minK", "protection"]
-    for n in need:
-        if n not in vals:
-            raise RuntimeError("C01 constants translator: constant %s not found in googlebreaker.go" % n)
+    for n in ("window", "buckets", "forcePassDuration", "k", "minK", "protection"):
+        vals[n] = _eval_const(n, decls).v
     for n in ("window", "buckets", "forcePassDuration", "protection"):
         if vals[n].denominator != 1:
             raise RuntimeError("C01 constants translator: %s is not an integer: %s" % (n, vals[n]))
-    # bucket.go: success / fail / drop = iota
-    bsrc = open(os.path.join(repo, "core/breaker/bucket.go")).read()
-    m = re.search(r"const\s*\(\s*(\w+)\s*=\s*iota\s*\n\s*(\w+)\s*\n\s*(\w+)\s*\n\s*\)", bsrc)
-    if not m:
-        raise RuntimeError("C01 constants translator: iota block of bucket.go not recognised")
-    names = [m.group(1), m.group(2), m.group(3)]
     for n in ("success", "fail", "drop"):
-        if n not in names:
-            raise RuntimeError("C01 constants translator: %s not in the iota block of bucket.go" % n)
-        vals["v_" + n] = Fraction(names.index(n))
+        v = _eval_const(n, decls).v
+        if v.denominator != 1:
+            raise RuntimeError("C01 constants translator: %s is not an integer: %s" % (n, v))
+        vals["v_" + n] = v
     return vals
 
 
@@ -207,7 +322,7 @@ def call(entry=0, ctx=0, out=0, gap=0, dur=0, m=1 << 13):
 class C01(Property):
     id = "C01"
     title = "Circuit breaker: admission law, exact accounting, guaranteed probing"
-    quick_cases = 260
+    quick_cases = 170      # + the fixed corpus (~50 cases, one per seeded class); the volume is in the thorough tier
     thorough_cases = 8000
     design_ref = "DESIGN.md §6/C01"
     level_text = ("Unbounded Rocq theorems over every history of calls (all entry points, ten request outcomes including the "
@@ -823,7 +938,7 @@ class C01(Property):
                 continue
             ncalls = rng.choice([rng.randint(1, 30), rng.randint(30, 150), rng.randint(100, 250), rng.randint(200, 400)])
             if tier == "quick":
-                ncalls = min(ncalls, 300)
+                ncalls = min(ncalls, 250)
             tempo = rng.choice(["dense", "dense", "medium", "sparse"])
             mix = rng.choice(["fail", "ok", "alt", "burst", "rand", "rand"])
             pfail = rng.random()
